@@ -726,3 +726,249 @@ GENERATORS = {
     "GenXPath.v": ("_delb/xpath/tokenizer.py, parser.py, ast.py (Axis/Function constructors), _delb/exceptions.py, "
                    "plugin_manager.xpath_functions and the Unicode tables of the running interpreter", gen_xpath),
 }
+
+
+# ------------------------------------------------------------------------------------------------
+# Gen/GenXPathFns.v: the helpers of parser.py that are loops over token lists, translated statement by
+# statement (fail closed).  Fragment: `if`/`else`, `return <bool>`, `return f(...)`, one `for` loop over a
+# list (or zip of two) whose body updates list accumulators with .append / .extend(<tuple of Token(...)>) /
+# `= []`, yields, `continue`s or returns a constant; what follows the loop is `return <acc>` / `return True` /
+# a final yield.  Types: tokens : list ttree, pattern : list (option tkind), separator : tkind,
+# accumulators : list ttree.
+
+class FnTr:
+    def __init__(self, f, types):
+        self.f = f
+        self.types = dict(types)          # name -> 'tokens' | 'pattern' | 'tkind' | 'otkind' | 'ttree' | 'acc'
+
+    def ty(self, e):
+        if isinstance(e, ast.Name) and e.id in self.types:
+            return self.types[e.id]
+        if isinstance(e, ast.Attribute) and isinstance(e.value, ast.Name):
+            if e.value.id == "TokenType":
+                return "tkind"
+            if self.types.get(e.value.id) == "ttree" and e.attr == "type":
+                return "tkind"
+            if self.types.get(e.value.id) == "ttree" and e.attr == "position":
+                return "nat"
+        if isinstance(e, ast.Call) and isinstance(e.func, ast.Name) and e.func.id == "len":
+            return "nat"
+        if isinstance(e, ast.Constant) and e.value is None:
+            return "none"
+        raise Unsupported("%s: cannot type %s" % (self.f.name, ast.unparse(e)))
+
+    def ex(self, e):
+        """value expression"""
+        if isinstance(e, ast.Name) and e.id in self.types:
+            return e.id
+        if isinstance(e, ast.Attribute) and isinstance(e.value, ast.Name):
+            if e.value.id == "TokenType":
+                return e.attr
+            if self.types.get(e.value.id) == "ttree" and e.attr == "type":
+                return "(tok_type %s)" % e.value.id
+            if self.types.get(e.value.id) == "ttree" and e.attr == "position":
+                return "(tok_pos %s)" % e.value.id
+        if isinstance(e, ast.Call) and isinstance(e.func, ast.Name) and e.func.id == "len" and len(e.args) == 1:
+            return "(length %s)" % self.ex(e.args[0])
+        raise Unsupported("%s: expression %s" % (self.f.name, ast.unparse(e)))
+
+    def cond(self, e):
+        """boolean expression"""
+        if isinstance(e, ast.Constant) and isinstance(e.value, bool):
+            return "true" if e.value else "false"
+        if isinstance(e, ast.BoolOp) and isinstance(e.op, ast.And):
+            return "(" + " && ".join(self.cond(v) for v in e.values) + ")"
+        if isinstance(e, ast.UnaryOp) and isinstance(e.op, ast.Not):
+            return "(negb %s)" % self.cond(e.operand)
+        if isinstance(e, ast.Name) and self.types.get(e.id) in ("acc", "tokens"):
+            return "(negb (null %s))" % e.id                       # truthiness of a list
+        if isinstance(e, ast.Call) and isinstance(e.func, ast.Name) and e.func.id == "isinstance" and len(e.args) == 2 \
+                and isinstance(e.args[1], ast.Name) and e.args[1].id == "Token" \
+                and isinstance(e.args[0], ast.Name) and self.types.get(e.args[0].id) == "ttree":
+            return "(is_token %s)" % e.args[0].id
+        if isinstance(e, ast.Call) and isinstance(e.func, ast.Name) and e.func.id == "compare_tokens_with_pattern":
+            args = {"tokens": None, "pattern": None}
+            if e.args and not e.keywords and len(e.args) == 2:
+                args["tokens"], args["pattern"] = e.args
+            elif not e.args and set(k.arg for k in e.keywords) == {"tokens", "pattern"}:
+                args = {k.arg: k.value for k in e.keywords}
+            else:
+                raise Unsupported("%s: call of compare_tokens_with_pattern" % self.f.name)
+            if self.ty(args["tokens"]) != "tokens" or self.ty(args["pattern"]) != "pattern":
+                raise Unsupported("%s: argument types of compare_tokens_with_pattern" % self.f.name)
+            return "(gen_compare_tokens_with_pattern %s %s)" % (self.ex(args["tokens"]), self.ex(args["pattern"]))
+        if isinstance(e, ast.Compare) and len(e.ops) == 1:
+            a, b, op = e.left, e.comparators[0], e.ops[0]
+            ta, tb = self.ty(a), self.ty(b)
+            if (ta, tb) == ("nat", "nat"):
+                if isinstance(op, ast.NotEq):
+                    return "(negb (Nat.eqb %s %s))" % (self.ex(a), self.ex(b))
+                if isinstance(op, ast.Lt):
+                    return "(Nat.ltb %s %s)" % (self.ex(a), self.ex(b))
+            if (ta, tb) == ("tkind", "otkind") and isinstance(op, ast.NotEq):
+                return "(negb (opt_tkind_eqb (Some %s) %s))" % (self.ex(a), self.ex(b))
+            if (ta, tb) == ("tkind", "tkind") and isinstance(op, ast.Is):
+                return "(tkind_eqb %s %s)" % (self.ex(a), self.ex(b))
+            if (ta, tb) == ("otkind", "none") and isinstance(op, ast.IsNot):
+                return "(negb (is_none %s))" % self.ex(a)
+        raise Unsupported("%s: condition %s" % (self.f.name, ast.unparse(e)))
+
+    def token_ctor(self, e):
+        if isinstance(e, ast.Call) and isinstance(e.func, ast.Name) and e.func.id == "Token" and len(e.args) == 3 \
+                and not e.keywords and isinstance(e.args[1], ast.Constant) and isinstance(e.args[1].value, str) \
+                and self.ty(e.args[0]) == "nat" and self.ty(e.args[2]) == "tkind":
+            return "TT (mkTok %s %s %s)" % (self.ex(e.args[0]), clit(e.args[1].value), self.ex(e.args[2]))
+        raise Unsupported("%s: %s is not Token(<position>, <literal>, TokenType.<member>)" % (self.f.name, ast.unparse(e)))
+
+    # -- loop bodies in continuation-passing style; `again` is the recursive call with the current accumulators
+    def block(self, stmts, again, accs, out, in_loop):
+        if not stmts:
+            return again(accs, out) if in_loop else self.finish(accs, out)
+        s, rest = stmts[0], stmts[1:]
+        if isinstance(s, ast.Expr) and isinstance(s.value, ast.Constant):
+            return self.block(rest, again, accs, out, in_loop)
+        if isinstance(s, ast.If):
+            c = self.cond(s.test)
+            return "(if %s\n then %s\n else %s)" % (c, self.block(s.body + rest, again, accs, out, in_loop),
+                                                  self.block(s.orelse + rest, again, accs, out, in_loop))
+        if isinstance(s, ast.Return):
+            if in_loop and not (isinstance(s.value, ast.Constant) and isinstance(s.value.value, bool)):
+                raise Unsupported("%s: return of a non-constant inside the loop" % self.f.name)
+            # (statements after a return, here the ones following the enclosing if, are not reached)
+            if isinstance(s.value, ast.Name) and s.value.id in accs:
+                return accs[s.value.id]
+            return self.cond(s.value)
+        if isinstance(s, ast.Continue):
+            if not in_loop:
+                raise Unsupported("%s: continue outside the loop" % self.f.name)
+            return again(accs, out)
+        if isinstance(s, ast.Expr) and isinstance(s.value, ast.Call) and isinstance(s.value.func, ast.Attribute) \
+                and isinstance(s.value.func.value, ast.Name) and s.value.func.value.id in accs and len(s.value.args) == 1:
+            name, meth, arg = s.value.func.value.id, s.value.func.attr, s.value.args[0]
+            if meth == "append" and isinstance(arg, ast.Name) and self.types.get(arg.id) == "ttree":
+                new = "(%s ++ [%s])" % (accs[name], arg.id)
+            elif meth == "extend" and isinstance(arg, (ast.Tuple, ast.List)):
+                new = "(%s ++ [%s])" % (accs[name], "; ".join(self.token_ctor(x) for x in arg.elts))
+            else:
+                raise Unsupported("%s: %s" % (self.f.name, ast.unparse(s)))
+            return self.block(rest, again, dict(accs, **{name: new}), out, in_loop)
+        if isinstance(s, ast.Assign) and len(s.targets) == 1 and isinstance(s.targets[0], ast.Name) \
+                and s.targets[0].id in accs and isinstance(s.value, ast.List) and not s.value.elts:
+            return self.block(rest, again, dict(accs, **{s.targets[0].id: "[]"}), out, in_loop)
+        if isinstance(s, ast.Expr) and isinstance(s.value, ast.Yield) and isinstance(s.value.value, ast.Name) \
+                and s.value.value.id in accs and out is not None:
+            return self.block(rest, again, accs, "(%s ++ [%s])" % (out, accs[s.value.value.id]), in_loop)
+        raise Unsupported("%s: statement `%s`" % (self.f.name, ast.unparse(s)[:80]))
+
+    def finish(self, accs, out):
+        if out is not None:
+            return out
+        raise Unsupported("%s: falls off the end" % self.f.name)
+
+
+def strip_body(f):
+    return [s for s in f.body if not (isinstance(s, ast.Expr) and isinstance(s.value, ast.Constant))]
+
+
+def tr_loop_function(f, coqname, params, acc_names, generator, iter_kind):
+    """params: [(name, coq type, tr type)].  The body must be: <acc> = [] ...; for ...: BODY; TAIL"""
+    body = strip_body(f)
+    tr = FnTr(f, [(n, t) for n, _, t in params])
+    i = 0
+    accs = []
+    while i < len(body) and isinstance(body[i], (ast.Assign, ast.AnnAssign)):
+        s = body[i]
+        tgt = s.targets[0] if isinstance(s, ast.Assign) else s.target
+        if not (isinstance(tgt, ast.Name) and isinstance(s.value, ast.List) and not s.value.elts):
+            raise Unsupported("%s: initialisation `%s`" % (f.name, ast.unparse(s)[:60]))
+        accs.append(tgt.id)
+        i += 1
+    if accs != acc_names:
+        raise Unsupported("%s: accumulators %s, expected %s" % (f.name, accs, acc_names))
+    if i >= len(body) or not isinstance(body[i], ast.For) or body[i].orelse:
+        raise Unsupported("%s: no for loop where expected" % f.name)
+    loop, tail = body[i], body[i + 1:]
+    for a in accs:
+        tr.types[a] = "acc"
+    out0 = "out" if generator else None
+    acc_params = "".join(" (%s : list ttree)" % a for a in accs) + (" (out : list (list ttree))" if generator else "")
+    rettype = "list (list ttree)" if generator else ("bool" if not accs else "list ttree")
+    if iter_kind == "zip":
+        if not (isinstance(loop.iter, ast.Call) and ast.unparse(loop.iter.func) == "zip" and len(loop.iter.args) == 2
+                and isinstance(loop.target, ast.Tuple) and len(loop.target.elts) == 2):
+            raise Unsupported("%s: loop is not `for a, b in zip(x, y)`" % f.name)
+        l1, l2 = (a.id for a in loop.iter.args)
+        v1, v2 = (a.id for a in loop.target.elts)
+        if tr.types.get(l1) != "tokens" or tr.types.get(l2) != "pattern":
+            raise Unsupported("%s: zip arguments" % f.name)
+        tr.types[v1], tr.types[v2] = "ttree", "otkind"
+
+        def again(a, o):
+            return "%s_loop %s' %s'" % (coqname, l1, l2)
+        step = tr.block(loop.body, again, {}, None, True)
+        done = tr.block(tail, None, {}, None, False)
+        other = [(n, t) for n, t, _ in params if n not in (l1, l2)]
+        text = "Fixpoint %s_loop (%s : list ttree) (%s : list (option tkind)) {struct %s} : bool :=\n" % (coqname, l1, l2, l1)
+        text += "  match %s, %s with\n  | %s :: %s', %s :: %s' =>\n%s\n  | _, _ => %s\n  end.\n" % (l1, l2, v1, l1, v2, l2, step, done)
+        text += "Definition %s %s : bool := %s_loop %s %s.\n" % (
+            coqname, " ".join("(%s : %s)" % (n, t) for n, t, _ in params), coqname, l1, l2)
+        return text
+    if not (isinstance(loop.iter, ast.Name) and tr.types.get(loop.iter.id) == "tokens" and isinstance(loop.target, ast.Name)):
+        raise Unsupported("%s: loop is not `for x in <token list>`" % f.name)
+    lst, var = loop.iter.id, loop.target.id
+    tr.types[var] = "ttree"
+    fixed = [(n, t) for n, t, _ in params if n != lst]
+
+    def again(a, o):
+        return "%s_loop %s%s' %s%s" % (coqname, "".join(n + " " for n, _ in fixed), lst, " ".join(a[x] for x in accs),
+                                       (" " + o) if generator else "")
+    accs0 = {a: a for a in accs}
+    step = tr.block(loop.body, again, accs0, out0, True)
+    done = tr.block(tail, None, accs0, out0, False)
+    text = "Fixpoint %s_loop %s(%s : list ttree)%s {struct %s} : %s :=\n" % (
+        coqname, "".join("(%s : %s) " % x for x in fixed), lst, acc_params, lst, rettype)
+    text += "  match %s with\n  | [] => %s\n  | %s :: %s' =>\n%s\n  end.\n" % (lst, done, var, lst, step)
+    text += "Definition %s %s : %s := %s_loop %s%s %s%s.\n" % (
+        coqname, " ".join("(%s : %s)" % (n, t) for n, t, _ in params), rettype, coqname,
+        "".join(n + " " for n, _ in fixed), lst, " ".join("[]" for _ in accs), " []" if generator else "")
+    return text
+
+
+def tr_straight_function(f, coqname, params):
+    tr = FnTr(f, [(n, t) for n, _, t in params])
+    body = tr.block(strip_body(f), None, {}, None, False)
+    return "Definition %s %s : bool :=\n  %s.\n" % (coqname, " ".join("(%s : %s)" % (n, t) for n, t, _ in params), body)
+
+
+def gen_xpath_fns():
+    par_tree = ast.parse(read("_delb/xpath/parser.py"))
+    out = "From Coq Require Import List NArith Arith Bool.\nFrom Delb.Base Require Import PyStr.\n" \
+          "From Delb.XPath Require Import XBase Tok TTree.\nFrom Delb.Gen Require Import GenXPath.\nImport ListNotations.\n\n"
+    TOK = ("tokens", "list ttree", "tokens")
+    PAT = ("pattern", "list (option tkind)", "pattern")
+
+    def args_of(f):
+        return [a.arg for a in f.args.args]
+    f = find_func(par_tree, "compare_tokens_with_pattern")
+    if args_of(f) != ["tokens", "pattern"]:
+        raise Unsupported("compare_tokens_with_pattern: parameters changed")
+    out += tr_loop_function(f, "gen_compare_tokens_with_pattern", [TOK, PAT], [], False, "zip") + "\n"
+    for name in ("all_tokens_match", "initial_tokens_match"):
+        f = find_func(par_tree, name)
+        if args_of(f) != ["tokens", "pattern"]:
+            raise Unsupported(name + ": parameters changed")
+        out += tr_straight_function(f, "gen_" + name, [TOK, PAT]) + "\n"
+    f = find_func(par_tree, "partition_tokens")
+    if args_of(f) != ["separator", "tokens"]:
+        raise Unsupported("partition_tokens: parameters changed")
+    out += tr_loop_function(f, "gen_partition_tokens", [("separator", "tkind", "tkind"), TOK], ["current_partition"],
+                            True, "list") + "\n"
+    f = find_func(par_tree, "expand_axes")
+    if args_of(f) != ["tokens"]:
+        raise Unsupported("expand_axes: parameters changed")
+    out += tr_loop_function(f, "gen_expand_axes", [TOK], ["result"], False, "list")
+    return out
+
+
+GENERATORS["GenXPathFns.v"] = ("_delb/xpath/parser.py compare_tokens_with_pattern, all_tokens_match, initial_tokens_match, "
+                               "partition_tokens, expand_axes (translated statement by statement)", gen_xpath_fns)
